@@ -291,14 +291,23 @@ def set_model(rules_L, rdates, exrules_L, exdates):
 FAR = {-1: datetime.datetime(1, 1, 2), 1: datetime.datetime(9999, 12, 30)}
 
 
+# instants of ALL members of the set under test, excluded ones included
+# (set by the C10 driver; None elsewhere): "mem" references pick from it, so
+# that queries also land exactly on occurrences an exclusion removes
+MEMBER_INSTANTS = None
+
+
 def resolve(ref, L, base):
     if ref[0] == "far":
         return FAR[ref[1]]
     if ref[0] == "abs":
         return dt(ref[1])
     _, k, delta = ref
-    if L:
-        e = L[k % len(L)]
+    pool = L
+    if ref[0] == "mem" and MEMBER_INSTANTS:
+        pool = MEMBER_INSTANTS
+    if pool:
+        e = pool[k % len(pool)]
     else:
         e = base
     try:
